@@ -25,6 +25,11 @@ pub enum GOp {
     /// second relationship type (only with `Case::owners`)
     Own(u8, u8),
     Disown(u8),
+    /// the server stops and starts again, every client connects anew: relationships that exist at that moment must be
+    /// groups in the new session as well
+    Restart,
+    /// two entities that own each other (two `Own` operations with a tick in between)
+    Mutual(u8, u8),
 }
 
 #[derive(Clone, Debug, Serialize, Deserialize)]
@@ -150,6 +155,30 @@ pub fn run(c: &Case) -> Outcome {
     for round in &c.rounds {
         // 1. graph evolution, then everybody in sync
         for g in &round.graph {
+            if matches!(g, GOp::Restart) {
+                sim.cfg.faults = true;
+                sim.step(&Step::ServerRestart);
+                for i in 0..nclients {
+                    sim.connect(i);
+                }
+                classes.insert("server_restart");
+                edited = true;
+                sync(&mut sim, 2);
+                continue;
+            }
+            if let GOp::Mutual(a, b) = *g {
+                let (a, b) = (a as usize % n, b as usize % n);
+                let before = sim.world_ops;
+                sim.step(&Step::SetOwner { slot: a, owner: b });
+                sync(&mut sim, 1);
+                sim.step(&Step::SetOwner { slot: b, owner: a });
+                sync(&mut sim, 1);
+                if sim.world_ops != before {
+                    edited = true;
+                    classes.insert("mutual_relation");
+                }
+                continue;
+            }
             let st = match *g {
                 GOp::Attach(a, b) => Step::SetParent { slot: a as usize % n, parent: b as usize % n },
                 GOp::Detach(a) => Step::DelParent { slot: a as usize % n },
@@ -160,6 +189,7 @@ pub fn run(c: &Case) -> Outcome {
                 GOp::Remark(a) => Step::Remark { slot: a as usize % n },
                 GOp::Own(a, b) => Step::SetOwner { slot: a as usize % n, owner: b as usize % n },
                 GOp::Disown(a) => Step::DelOwner { slot: a as usize % n },
+                GOp::Restart | GOp::Mutual(..) => unreachable!(),
             };
             let before = sim.world_ops;
             sim.step(&st);
@@ -356,6 +386,8 @@ fn gop() -> impl Strategy<Value = GOp> {
         2 => (0u8..6).prop_map(GOp::Remark),
         5 => (0u8..6, 0u8..6).prop_map(|(a, b)| GOp::Own(a, b)),
         1 => (0u8..6).prop_map(GOp::Disown),
+        1 => Just(GOp::Restart),
+        2 => (0u8..6, 0u8..6).prop_map(|(a, b)| GOp::Mutual(a, b)),
     ]
 }
 
